@@ -137,13 +137,8 @@ def r3(cx, rec):
         asc = None
         clo = [x for x in e[2][1:] if x[0] == 'closure']
         if nm in ('sort_by', 'sort_unstable_by') and clo:
-            cf, r = closure_ret(F, clo[0][1])
-            if r is not None and r[0] == 'call' and r[4].get('name') == 'cmp':
-                a, b = show(r[2][0]), show(r[2][1])
-                m1, m2 = re.match(r'arg(\d)\.1$', a), re.match(r'arg(\d)\.1$', b)
-                if m1 and m2:
-                    asc = int(m1.group(1)) < int(m2.group(1))
-                rec.site(cf, None, 'comparator %s.cmp(%s): ascending=%s' % (a, b, asc))
+            asc = C.cmp_orientation(F, clo[0][1], '1')
+            rec.site(F.fn(clo[0][1]), None, 'comparator ascending in the availability count: %s' % asc)
         elif nm in ('sort_by_key', 'sort_unstable_by_key') and clo:
             cf, r = closure_ret(F, clo[0][1])
             if r is not None:
